@@ -109,10 +109,25 @@ func c02Burst(c *ctx) {
 	if c.thorough() {
 		rounds = 12
 	}
+	// first: pairs whose second callback starts a little after the first (inside the time the first spends signing its client assertion), then the bursts
+	type shape struct {
+		n       int
+		stagger time.Duration
+	}
+	var shapes []shape
 	for round := 0; round < rounds; round++ {
+		for _, st := range []time.Duration{100 * time.Microsecond, 300 * time.Microsecond, 600 * time.Microsecond, 1200 * time.Microsecond} {
+			shapes = append(shapes, shape{2, st})
+		}
+	}
+	for round := 0; round < rounds; round++ {
+		shapes = append(shapes, shape{24, 0})
+	}
+	for _, sh := range shapes {
+		c.flush() // a data race inside the implementation can bring the whole process down: keep what was observed so far
 		s := newSut(sutOpts{sidRequired: true, ingresses: []string{"http://wonderwall", "http://other.example"}})
 		rp := s.replica("A")
-		n := 24
+		n := sh.n
 		atts := make([]*attempt, n)
 		bases := make([]string, n)
 		codeOf, verOf := map[string]int{}, map[string]int{}
@@ -135,6 +150,7 @@ func c02Burst(c *ctx) {
 			go func() {
 				defer wg.Done()
 				<-start
+				time.Sleep(time.Duration(i) * sh.stagger)
 				r := atts[i].b.do(rp, "GET", bases[i]+"/oauth2/callback?"+url.Values{"code": {atts[i].code}, "state": {atts[i].state}}.Encode(), nav)
 				statuses[i] = r.Status
 			}()
@@ -165,7 +181,7 @@ func c02Burst(c *ctx) {
 			}
 		}
 		c.count("burst")
-		c.emit("cbburst", "n", n, "mixed", mixed, "redirmixed", redirMixed, "dup", dup, "sessions", sessions, "redeemed", len(seen))
+		c.emit("cbburst", "n", n, "staggerus", int64(sh.stagger/time.Microsecond), "mixed", mixed, "redirmixed", redirMixed, "dup", dup, "sessions", sessions, "redeemed", len(seen))
 		s.close()
 	}
 }
